@@ -2901,11 +2901,11 @@ def groupby_reduce(
             # rather than the planner's preference (blockwise/cohorts silently mishandle it)
             method = "map-reduce"
 
-        if (
-            method == "blockwise"
-            and any_by_dask
-            and not all(nchunks == 1 for nchunks in array.numblocks[-nax:])
-        ):
+        # in-memory data grouped by chunked labels: the labels' chunks are the blocks
+        blocked = array if is_duck_dask_array(array) else by_
+        single_block = all(nchunks == 1 for nchunks in blocked.numblocks[-nax:])
+
+        if method == "blockwise" and any_by_dask and not single_block:
             raise NotImplementedError(
                 "method='blockwise' with dask labels is only supported when the reduced axes have a single block: "
                 "the labels present in each block are not known when the graph is built."
@@ -2917,11 +2917,7 @@ def groupby_reduce(
                 f"Received method={method!r}"
             )
 
-        if (
-            _is_arg_reduction(agg)
-            and method == "blockwise"
-            and not all(nchunks == 1 for nchunks in array.numblocks[-nax:])
-        ):
+        if _is_arg_reduction(agg) and method == "blockwise" and not single_block:
             raise NotImplementedError(
                 "arg-reductions are not supported with method='blockwise', use 'cohorts' instead."
             )
